@@ -397,8 +397,9 @@ def gates(m, tier):
                             m.sets.get('bitstates', ()):
                         out.append('bit %s.%s never %d' % (sp.name, n, b))
     fr = m.sets.get('funcs_reached', set())
-    for f in ('base.py:Frame.marshal', 'base.py:Frame.unmarshal',
-              'frame.py:_unmarshal_method_frame'):
+    for f in common.anchored(('base.py:Frame.marshal',
+                              'base.py:Frame.unmarshal',
+                              'frame.py:_unmarshal_method_frame')):
         if f not in fr:
             out.append('anchored function %s never entered' % f)
     if m.counters.get('refused_at_construct', 0):
